@@ -234,8 +234,49 @@ Definition otlp_res (q : quirks) (r : ores) : option (list span_rows) :=
   if r_has_res r || negb (q_nil_resource q) then mapM (otlp_span q (res_attrs r)) spans
   else match spans with [] => Some [] | _ => None end.      (* legacy: nil dereference at the group's first span *)
 
-Definition otlp_decode (q : quirks) (b : list ores) : option (list span_rows) :=
+Definition otlp_decode_core (q : quirks) (b : list ores) : option (list span_rows) :=
   option_map (@List.concat _) (mapM (otlp_res q) b).
+
+(* withParsedBody: proto.Unmarshal of the request refuses a proto3 string field that is not UTF-8 (utf8.Valid: no overlong forms, no
+   encoded surrogates, nothing above U+10FFFF) -- the span's name, every attribute key and string value at any depth, of the span and of the
+   resource; ids and bytes values are not strings.  The whole request fails before Decode runs. *)
+Definition in_rng (lo hi : N) (c : ascii) : bool := let n := N_of_ascii c in (lo <=? n)%N && (n <=? hi)%N.
+Fixpoint utf8_from (k : nat) (lo hi : N) (s : string) : bool :=       (* k continuation bytes pending, the next one within lo..hi *)
+  match s with
+  | EmptyString => Nat.eqb k 0
+  | String c r =>
+      match k with
+      | S k' => in_rng lo hi c && utf8_from k' 128 191 r
+      | O =>
+          let n := N_of_ascii c in
+          if (n <? 128)%N then utf8_from 0 128 191 r
+          else if (n <? 194)%N then false                      (* a continuation byte, or the overlong leads C0 C1 *)
+          else if (n <? 224)%N then utf8_from 1 128 191 r
+          else if (n =? 224)%N then utf8_from 2 160 191 r      (* E0: no overlong three-byte forms *)
+          else if (n =? 237)%N then utf8_from 2 128 159 r      (* ED: no surrogates *)
+          else if (n <? 240)%N then utf8_from 2 128 191 r
+          else if (n =? 240)%N then utf8_from 3 144 191 r      (* F0: no overlong four-byte forms *)
+          else if (n <? 244)%N then utf8_from 3 128 191 r
+          else if (n =? 244)%N then utf8_from 3 128 143 r      (* F4: up to U+10FFFF *)
+          else false
+      end
+  end.
+Definition utf8_valid (s : string) : bool := utf8_from 0 128 191 s.
+Fixpoint aval_utf8 (v : aval) : bool :=
+  match v with
+  | AStr s => utf8_valid s
+  | AList l => (fix go (l : list aval) : bool := match l with [] => true | x :: r => aval_utf8 x && go r end) l
+  | AMap kvs => (fix go (l : list (string * aval)) : bool :=
+                   match l with [] => true | p :: r => utf8_valid (fst p) && aval_utf8 (snd p) && go r end) kvs
+  | _ => true
+  end.
+Definition attrs_utf8 (a : attrs) : bool := forallb (fun kv => utf8_valid (fst kv) && aval_utf8 (snd kv)) a.
+Definition ospan_utf8 (s : ospan) : bool := utf8_valid (o_name s) && attrs_utf8 (o_attrs s).
+Definition ores_utf8 (r : ores) : bool := attrs_utf8 (res_attrs r) && forallb ospan_utf8 (List.concat (r_scopes r)).
+Definition otlp_utf8_ok (b : list ores) : bool := forallb ores_utf8 b.
+
+Definition otlp_decode (q : quirks) (b : list ores) : option (list span_rows) :=
+  if otlp_utf8_ok b then otlp_decode_core q b else None.
 
 (* ------------------------------------------------------------------ JSON values, Zipkin write path *)
 Inductive jv :=
